@@ -270,6 +270,9 @@ def search_case(find, algo, table, minimize, n, param, seed, notes):
     flags = [x[1] for x in rec.log]
     if not multi:
         for i, (ind, f, gen, best) in enumerate(rec.log):
+            if len(best) != 1 or best[0] is None:
+                find.add(f"rt:C12:{algo.split('(')[0]}.best_during_search", f"{desc}: at registration #{i + 1} (while the recorders are being told) the tracker reported no best individual although {vals[: i + 1]} had been evaluated", size)
+                return False
             bv = ff.value(best[0].get_phenotype())
             if any(better(v, bv, minimize) for v in vals[: i + 1]):
                 find.add(f"rt:C12:{algo.split('(')[0]}.best_during_search", f"{desc}: at registration #{i + 1} the reported best had fitness {bv} although {vals[: i + 1]} had been evaluated", size)
